@@ -98,7 +98,7 @@ def impl_rr(op):
 
 def sql_diffs(op, rr):
     diffs = []
-    for d in ro.DIALECTS:
+    for d in ro.SQL_CONTEXTS:
         a, b = ro.sql_of(op, d), ro.sql_of(rr, d)
         if a != b:
             diffs.append({"dialect": d, "original": a, "twice_reversed": b})
@@ -187,6 +187,22 @@ def leaf_tags(container):
     return out
 
 
+DIFF_KIND = {"add_table": "createTable", "remove_table": "dropTable", "add_column": "addColumn", "remove_column": "dropColumn",
+             "add_index": "createIndex", "remove_index": "dropIndex", "add_constraint": "addConstraint", "add_fk": "addConstraint",
+             "remove_constraint": "dropConstraint", "remove_fk": "dropConstraint", "add_table_comment": "createTableComment",
+             "remove_table_comment": "dropTableComment"}
+
+
+def diff_kinds(container):
+    """op kinds as observed through OpContainer.as_diffs() (to_diff_tuple of every leaf); None if a leaf cannot
+    produce its diff tuple (drop op without stored _reverse)"""
+    try:
+        diffs = container.as_diffs()
+    except ValueError:
+        return None
+    return ["alterColumn" if isinstance(d, list) else DIFF_KIND.get(d[0], "other:%s" % d[0]) for d in diffs]
+
+
 def check_trees(ctx, trees, where):
     """trees: list of (upgrade op list, DowngradeOps produced by the implementation or None on ValueError)"""
     q = []
@@ -214,6 +230,19 @@ def check_trees(ctx, trees, where):
             ctx.disagree("rev.tree", inp, {"down": iv}, m)
         else:
             ctx.trace_ok()
+        # DowngradeOps.reverse(): the upgrade rebuilt from the downgrade
+        try:
+            up2 = [ro.view_json(o) for o in down.reverse().ops]
+        except ValueError:
+            up2 = "ValueError"
+        m2 = m.get("up2")
+        if (m2 if isinstance(m2, str) else [ro.norm(x) for x in m2]) != up2:
+            ctx.disagree("rev.tree/DowngradeOps.reverse", inp, {"up2": up2}, {"up2": m2})
+        # the same kinds through as_diffs()
+        for cont, tags_ in ((ops.UpgradeOps(ops=up), q[2 * k + 1]["ups"]), (down, [[t] for t in q[2 * k + 1]["downs"]])):
+            dk = diff_kinds(cont)
+            if dk is not None and dk != [t[0] for t in tags_]:
+                ctx.disagree("as_diffs-kinds", inp, {"as_diffs": dk}, {"op_classes": [t[0] for t in tags_]})
         n = len(q[2 * k + 1]["ups"])
         ctx.hist("tree_leaves(%s)" % where, min(n, 12))
         if n:
@@ -224,6 +253,27 @@ def check_trees(ctx, trees, where):
 
 
 # ------------------------------------------------------------------ part B: autogenerate on SQLite
+
+NONBATCH_OK = (ops.AddColumnOp, ops.DropColumnOp, ops.CreateIndexOp, ops.DropIndexOp, ops.CreateTableOp, ops.DropTableOp)
+
+
+def sqlite_can_alter(*containers):
+    """every op is one SQLite executes without a table recreate (ADD/DROP COLUMN, CREATE/DROP INDEX/TABLE)"""
+    return all(isinstance(o, NONBATCH_OK) for c in containers for o in flatten(c.ops))
+
+
+def apply_rendered(conn, container, batch=True):
+    """the real path: the ops rendered as the body of upgrade()/downgrade() (batch mode, as SQLite needs) and executed
+    through the op.* directives"""
+    from alembic.autogenerate import render_python_code
+    mc = MigrationContext.configure(conn)
+    code = render_python_code(container, render_as_batch=batch, migration_context=mc)
+    src = "def _run():\n" + "\n".join("    " + l for l in code.splitlines()) + "\n"
+    ns = {"op": Operations(mc), "sa": sa}
+    exec(compile(src, "<rendered>", "exec"), ns)
+    ns["_run"]()
+    return code
+
 
 def apply_ops(conn, container):
     mc = MigrationContext.configure(conn)
@@ -246,7 +296,7 @@ def autogen_case(ctx, pair):
         md_b = fs.build_metadata(pair["meta"])
         with warnings.catch_warnings():
             warnings.simplefilter("ignore")
-            mc = MigrationContext.configure(conn, opts={"include_schemas": inc})
+            mc = MigrationContext.configure(conn, opts={"include_schemas": inc, "compare_server_default": True})
             base = ag_api.compare_metadata(mc, md_a)
             script = ag_api.produce_migrations(mc, md_b)
             up, down = script.upgrade_ops, script.downgrade_ops
@@ -259,18 +309,29 @@ def autogen_case(ctx, pair):
             if not up.ops:
                 ctx.hist("undo_oracle", "skipped: empty upgrade")
                 return result
+            # two ways to run the ops: the rendered script body (the real path; needed as soon as an op carries a
+            # server default, which autogenerate stores as a DefaultClause object) or Operations.invoke of the op objects
+            has_default = any(c.get("default") is not None for side in ("conn", "meta") for t in pair[side] for c in t["cols"])
+            rendered = has_default or (len(pair["conn"]) + len(pair["meta"])) % 2 == 0
+            apply = apply_rendered if rendered else apply_ops
+            via = "rendered script (batch)" if rendered else "invoke (batch)"
+            if rendered and sqlite_can_alter(up, down):
+                # plain op.add_column / op.drop_column / op.create_index / op.drop_index directives
+                apply = lambda c_, o_: apply_rendered(c_, o_, batch=False)  # noqa: E731
+                via = "rendered script (no batch)"
+            ctx.hist("undo_executed_via", via)
             try:
-                apply_ops(conn, up)
+                apply(conn, up)
             except Exception as e:
                 ctx.hist("undo_oracle", "skipped: upgrade not executable on SQLite (%s)" % type(e).__name__)
                 return result
             try:
-                apply_ops(conn, down)
+                apply(conn, down)
             except Exception as e:
                 ctx.fail({"pair": pair, "where": "undo"}, "undo-exec: the downgrade of an executed upgrade fails on SQLite: %s: %s"
                          % (type(e).__name__, str(e)[:300]), impl={"up": [ro.op_json(o) for o in up.ops]}, tags=["undo"])
                 return result
-            mc2 = MigrationContext.configure(conn, opts={"include_schemas": inc})
+            mc2 = MigrationContext.configure(conn, opts={"include_schemas": inc, "compare_server_default": True})
             rest = ag_api.compare_metadata(mc2, md_a)
             ctx.hist("undo_oracle", "executed")
             ctx.extra["undo_executed"] = ctx.extra.get("undo_executed", 0) + 1
